@@ -115,3 +115,44 @@ def rule_option_flow(ctx):
                     f"`expand_enum`: with {case} the variant is expanded with `rename_all` = {_show(got)} instead of {_show(want)}: the variant's own `rename_all` must win and the enum's is only the fallback",
                     {},
                 )
+
+
+def rule_meta_defaults(ctx):
+    """OPT-ALG(meta): `MetaInfo::into_full` resolves every legacy attribute flag (`enabled`, `forward`, `owned`, `ref`, `ref_mut`) the same way: the item's own setting wins - also an explicit `not(..)`, i.e. `Some(false)` - and the inherited default is used only when the item says nothing; no flag reads another flag's slot. Each field initialiser is evaluated on own in {None, Some(true), Some(false)} x default in {true, false} with every *other* slot unknown."""
+    fn = _fn(ctx, "impl/src/utils.rs", "MetaInfo::into_full")
+    lit = next((x for x, _ in A.find(fn.block, "Expr::Struct") if A.path_last(x["path"]) == "FullMetaInfo"), None)
+    if lit is None:
+        raise A.AnchorLost("impl/src/utils.rs::MetaInfo::into_full", "FullMetaInfo literal")
+    params = [A.render_pat(p["0"]["pat"]) for p in fn.node["sig"]["inputs"] if A.kind(p) == "FnArg::Typed"]
+    if len(params) != 1:
+        raise A.AnchorLost("impl/src/utils.rs::MetaInfo::into_full", f"parameters {params}")
+    dflt = params[0]
+    flags = []
+    for fv in lit["fields"]:
+        nm = fv["member"]["0"]["sym"] if A.kind(fv["member"]) == "Member::Named" else None
+        if nm is None:
+            continue
+        if A.render(fv["expr"]) == "self":
+            continue
+        flags.append((nm, fv))
+    ctx.floor("legacy attribute flags", len(flags), 5)
+    for nm, fv in flags:
+        for own in (O.NONE, O.some(True), O.some(False)):
+            for d in (True, False):
+                case = f"own={_show(own)},default={d}"
+                ctx.instance(f"meta:{nm}:{case}", sample={"flag": nm, "case": case, "expr": A.render(fv["expr"])})
+                env = O.Env({f"self.{nm}": own, f"{dflt}.{nm}": d})
+                try:
+                    got = O.ev(fv["expr"], env)
+                except O.Return:
+                    got = O.TOP
+                want = own[1] if own != O.NONE else d
+                if got is not want and got != want or isinstance(got, tuple):
+                    ctx.report(
+                        f"meta:{nm}:{case}",
+                        ctx.where(fn.file, fv["expr"]),
+                        f"`MetaInfo::into_full`: `{nm}` is computed as `{A.render(fv['expr'])}`; with {case} it yields {_show(got) if isinstance(got, tuple) else got} instead of {want}: "
+                        + ("it reads another flag's slot" if got == O.TOP else "an explicit setting of the item (e.g. `not(forward)`) no longer overrides the inherited default")
+                        + " - the derives that consult this flag (forwarding of Deref/Index/Mul.., reference kinds of Unwrap/TryInto/IntoIterator, `ignore`) decide for the wrong kind of impl",
+                        {},
+                    )
